@@ -20,6 +20,13 @@ let () =
   try while true do
     let line = input_line stdin in
     match String.split_on_char '|' line with
+    | ["X"; m; d; o] ->       (* the total model: K = close, refused operations answer E:<errno> *)
+        let disk = if d = "-" then None else Some (bytes_of d) in
+        let ops = if o = "" then [] else List.map (fun s -> if s = "K" then XClose else XOp (parse_op s)) (String.split_on_char ',' o) in
+        (match xhistory (parse_mode m) disk ops with
+         | None -> print_endline "NONE"
+         | Some (c, rs) ->
+             print_endline (show_bytes c ^ "|" ^ String.concat "," (List.map (function XVal (RBytes b) -> "B:" ^ show_bytes b | XVal (RInt n) -> "I:" ^ BZ.to_string (bz_of_z n) | XNil -> "N:" | XErr e -> "E:" ^ BZ.to_string (bz_of_z e)) rs)))
     | [m; d; o] ->
         let disk = if d = "-" then None else Some (bytes_of d) in
         let ops = if o = "" then [] else List.map parse_op (String.split_on_char ',' o) in
